@@ -25,13 +25,14 @@ LEVEL = 'exploration'
 WORKERS = {'quick': 10, 'thorough': 14}
 BUDGET_S = {'quick': 40, 'thorough': 300}
 REQUIRED_COUNTERS = ['guess_columns_vs_reference_state', 'expected_key_vs_reference', 'expected_key_column_vs_real_state', 'slicing_twins', 'retained_results_rechecked', 'aes_cases', 'des_cases',
-                     'constructed_keys']
+                     'constructed_keys', 'big_batch_rows_vs_small_batches', 'concurrent_calls_vs_alone']
 AES_E = ['FirstAddRoundKey', 'FirstSubBytes', 'LastAddRoundKey', 'LastSubBytes', 'DeltaRLastRounds']
 AES_D = ['FirstAddRoundKey', 'FirstSubBytes', 'LastAddRoundKey', 'LastSubBytes', 'DeltaRFirstRounds']
 DES_N = ['FirstAddRoundKey', 'FirstSboxes', 'LastAddRoundKey', 'LastSboxes', 'FeistelRFirstRounds', 'FeistelRLastRounds', 'DeltaRFirstRounds', 'DeltaRLastRounds']
 RULE = ('a case = (cipher AES-128/192/256 | DES, namespace encrypt | decrypt, selection-function class (all 26 constructors), 1..40 traces, data dtype, '
         'words selection int | list | slice | ndarray | all, guesses full | subset | permutation, sub-seed); in every case ALL guess columns are compared with '
-        'the reference state under a key constructed for that guess; non-trivial = at least one column compared; distinct by all of these')
+        'the reference state under a key constructed for that guess; plus single calls on 1025..5000 traces judged row by row against short batches, and '
+        '4 threads calling the functions of one cipher at once (switch interval 10 us) judged against the same calls made alone; non-trivial = at least one column compared; distinct by all of these')
 ASSUMPTIONS = ['vf.refs.aes_ref / des_ref are correct (self-tested against the standards\' vectors and pycryptodome; failure = inconclusive)',
                'DES master keys are built with parity bits 0 (the key schedule ignores them)']
 
@@ -63,7 +64,20 @@ def cases(tier, seed):
     out.append(dict(gen='des', ns='decrypt', name='DeltaRFirstRounds', n=64, sub=core.subseed('C07sq', seed, 3), must=True))
     for j in range(4 if tier == 'quick' else 80):
         out.append(dict(gen='family', cipher=['aes', 'des'][j % 2], sub=core.subseed('C07fam', seed, j), must=j < 2))
+    # one call on a batch longer than any internal block size; several callers at once
+    bigs = [('aes', 'encrypt', 'FirstSubBytes', 1500), ('aes', 'encrypt', 'LastSubBytes', 2049), ('aes', 'decrypt', 'DeltaRFirstRounds', 1025), ('aes', 'encrypt', 'FirstAddRoundKey', 1300),
+            ('des', 'encrypt', 'FirstSboxes', 1500), ('des', 'decrypt', 'FeistelRLastRounds', 2049), ('des', 'encrypt', 'DeltaRLastRounds', 1025)]
+    for j, (cipher, ns, name, n) in enumerate(bigs):
+        out.append(dict(gen='big', cipher=cipher, ns=ns, name=name, n=n, sub=core.subseed('C07big', seed, j), must=True))
+    for j in range(2 if tier == 'quick' else 30):
+        out.append(dict(gen='threads', cipher=['des', 'aes'][j % 2], sub=core.subseed('C07thr', seed, j), must=j < 2))
     rs = np.random.default_rng(core.subseed('C07r', seed))
+    if tier == 'thorough':
+        for j in range(60):
+            cipher = ['aes', 'des'][int(rs.integers(2))]
+            ns = ['encrypt', 'decrypt'][int(rs.integers(2))]
+            nm = (AES_E if ns == 'encrypt' else AES_D)[int(rs.integers(5))] if cipher == 'aes' else DES_N[int(rs.integers(8))]
+            out.append(dict(gen='big', cipher=cipher, ns=ns, name=nm, n=int(rs.choice([257, 1023, 1024, 1025, 2047, 3000, 4097, 5000])), sub=int(rs.integers(2 ** 62))))
     n_rand = 150 if tier == 'quick' else 5000
     for j in range(n_rand):
         if rs.random() < 0.55:
@@ -372,7 +386,139 @@ def run_family(case):
     return t.result(sig=f"family|{cipher}|{case['sub']}", sample=dict(case=case, calls=len(order)))
 
 
+def _ref_expected_column(cipher, ns, nm, block, key):
+    first_key = (ns == 'encrypt' and 'First' in nm) or (ns == 'decrypt' and 'Last' in nm)
+    kind = nm.replace('First', '').replace('Last', '').replace('Rounds', '')
+    if cipher == 'aes':
+        rk = A.expand(key)
+        if first_key:
+            st, _ = A.enc_states(block, key)
+            return rk[0], (st[(0, 3)] if kind == 'AddRoundKey' else st[(1, 0)])
+        st, _ = A.dec_states(block, key)
+        return rk[-1], (st[(0, 0)] if kind == 'AddRoundKey' else A.shr(st[(0, 3)]) if kind == 'SubBytes' else A.shr([a ^ b for a, b in zip(st[(0, 3)], block)]))
+    step = dict(AddRoundKey=2, Sboxes=3, FeistelR=7, DeltaR=8)[kind]
+    rks = D.round_keys(key)
+    rec, pre, ct = D.des_trace(block, rks if first_key else rks[::-1])
+    return (rks[0] if first_key else rks[15]), D.stop_value(rec, pre, ct, 0, step)
+
+
+def run_big(case):
+    """One call on a batch longer than any plausible internal block: every row must be what the same function gives for that row in a
+    small batch (rows are independent), and sampled rows must be the real cipher state at the expected key."""
+    import scared
+    t = core.Tally()
+    rng = gen.rng_of(case['sub'])
+    cipher, ns, nm, n = case['cipher'], case['ns'], case['name'], int(case['n'])
+    ctor = getattr(getattr(getattr(scared, cipher).selection_functions, ns), nm)
+    first_key = (ns == 'encrypt' and 'First' in nm) or (ns == 'decrypt' and 'Last' in nm)
+    tag = 'plaintext' if first_key else 'ciphertext'
+    width, ng = (16, 256) if cipher == 'aes' else (8, 64)
+    data = rng.integers(0, 256, (n, width)).astype('uint8')
+    data.setflags(write=False)
+    sf = ctor()
+    out = np.asarray(sf(**{tag: data}))
+    info = dict(cipher=cipher, namespace=ns, function=nm, traces=n)
+    t.count('big_batch_calls')
+    if not t.check(out.shape == (n, ng, width), 'full_output_shape', lambda: dict(info, got=out.shape)):
+        return t.result()
+    pos = 0
+    bad = None
+    while pos < n:
+        c = int(rng.choice([1, 7, 40, 64]))
+        small = np.asarray(ctor()(**{tag: data[pos:pos + c]}))
+        t.count('big_batch_rows_vs_small_batches', len(small))
+        if bad is None and not np.array_equal(small, out[pos:pos + c]):
+            r = pos + int(np.argwhere(np.any(small.reshape(len(small), -1) != out[pos:pos + c].reshape(len(small), -1), axis=1))[0][0])
+            bad = dict(info, first_bad_row=r, chunk=[pos, pos + c])
+        pos += c
+    t.check(bad is None, 'row_of_a_long_batch_differs_from_the_same_row_in_a_short_batch', bad)
+    key = [int(v) for v in rng.integers(0, 256, 16 if cipher == 'aes' else 8)]
+    for r in sorted({0, 1, n - 1, n - 2, min(n - 1, 1023), min(n - 1, 1024), n // 2, int(rng.integers(n)), int(rng.integers(n))}):
+        ek, exp = _ref_expected_column(cipher, ns, nm, [int(v) for v in data[r]], key)
+        got = [int(out[r, ek[w], w]) for w in range(width)]
+        t.count('expected_key_column_vs_real_state')
+        t.check(got == exp, 'expected_key_column_is_not_the_real_state', lambda: dict(info, trace=r, got=got, expected=exp))
+    return t.result(sig=f"big|{cipher}|{ns}|{nm}|{n}", sample=dict(case=case, derived=info))
+
+
+def run_threads(case):
+    """Several threads call the ready-made functions of one cipher at once, each on its own batch: every result must be the one the
+    same call gives alone (computed beforehand in this process, and tied to the reference cipher at the expected key)."""
+    import sys
+    import threading
+    import scared
+    t = core.Tally()
+    rng = gen.rng_of(case['sub'])
+    cipher = case['cipher']
+    width = 16 if cipher == 'aes' else 8
+    names = [(ns, nm) for ns in ('encrypt', 'decrypt') for nm in (AES_E if cipher == 'aes' and ns == 'encrypt' else AES_D if cipher == 'aes' else DES_N)]
+    nthreads, ncalls = 4, (24 if cipher == 'aes' else 60)
+    plans = []
+    for th in range(nthreads):
+        plan = []
+        for c in range(ncalls):
+            ns, nm = names[int(rng.integers(len(names)))]
+            first_key = (ns == 'encrypt' and 'First' in nm) or (ns == 'decrypt' and 'Last' in nm)
+            data = rng.integers(0, 256, (int(rng.choice([1, 3, 10])), width)).astype('uint8')
+            plan.append((ns, nm, 'plaintext' if first_key else 'ciphertext', data))
+        plans.append(plan)
+    key = [int(v) for v in rng.integers(0, 256, 16 if cipher == 'aes' else 8)]
+    alone = []
+    for plan in plans:
+        res = []
+        for ns, nm, tag, data in plan:
+            out = np.asarray(getattr(getattr(getattr(scared, cipher).selection_functions, ns), nm)()(**{tag: data}))
+            res.append(out)
+        alone.append(res)
+    # tie the sequential results to the reference (first row of a few calls per thread)
+    for th in range(nthreads):
+        for c in (0, ncalls // 2, ncalls - 1):
+            ns, nm, tag, data = plans[th][c]
+            ek, exp = _ref_expected_column(cipher, ns, nm, [int(v) for v in data[0]], key)
+            got = [int(alone[th][c][0, ek[w], w]) for w in range(width)]
+            t.count('expected_key_column_vs_real_state')
+            t.check(got == exp, 'expected_key_column_is_not_the_real_state', lambda: dict(cipher=cipher, function=f'{ns}.{nm}', got=got, expected=exp))
+    results = [[None] * ncalls for _ in range(nthreads)]
+    errors = []
+    barrier = threading.Barrier(nthreads)
+
+    def work(th):
+        barrier.wait()
+        for c, (ns, nm, tag, data) in enumerate(plans[th]):
+            try:
+                sf = getattr(getattr(getattr(scared, cipher).selection_functions, ns), nm)()
+                results[th][c] = np.asarray(sf(**{tag: data}))
+            except Exception as e:      # recorded, judged below
+                errors.append((th, c, f'{ns}.{nm}', repr(e)[:200]))
+
+    old = sys.getswitchinterval()
+    sys.setswitchinterval(1e-5)
+    try:
+        ths = [threading.Thread(target=work, args=(i,)) for i in range(nthreads)]
+        for x in ths:
+            x.start()
+        for x in ths:
+            x.join()
+    finally:
+        sys.setswitchinterval(old)
+    t.check(not errors, 'concurrent_call_failed', lambda: dict(cipher=cipher, first=errors[:3], count=len(errors)))
+    for th in range(nthreads):
+        for c in range(ncalls):
+            if results[th][c] is None:
+                continue
+            t.count('concurrent_calls_vs_alone')
+            ns, nm, tag, data = plans[th][c]
+            t.check(results[th][c].shape == alone[th][c].shape and bool(np.array_equal(results[th][c], alone[th][c])), 'result_depends_on_a_concurrent_call',
+                    lambda: dict(cipher=cipher, thread=th, call=c, function=f'{ns}.{nm}'))
+    return t.result(sig=f"threads|{cipher}|{case['sub']}", sample=dict(case=case, threads=nthreads, calls_per_thread=ncalls))
+
+
 def run_case(case):
+    if case['gen'] in ('big', 'threads'):
+        r = run_big(case) if case['gen'] == 'big' else run_threads(case)
+        for c in REQUIRED_COUNTERS:
+            r.setdefault('counters', {}).setdefault(c, 0)
+        return r
     if case['gen'] == 'family':
         r = run_family(case)
         for c in REQUIRED_COUNTERS:
